@@ -108,6 +108,16 @@ use std::ops::{Add, Mul};
 #[cfg(test)]
 pub mod fake_timer;
 
+// The time left until `at`, zero when `at` is already in the past.
+fn duration_until(at: Instant) -> Duration {
+  let now = Instant::now();
+  if at > now {
+    at - now
+  } else {
+    Duration::default()
+  }
+}
+
 type ALLOp<S, F, Item> = DefaultIfEmptyOp<
   TakeOp<FilterOp<MapOp<S, F, Item>, fn(&bool) -> bool>>,
   bool,
@@ -1230,7 +1240,7 @@ pub trait ObservableExt<Item, Err>: Sized {
   fn delay_at<SD>(self, at: Instant, scheduler: SD) -> DelayOp<Self, SD> {
     DelayOp {
       source: self,
-      delay: at.elapsed(),
+      delay: duration_until(at),
       scheduler,
     }
   }
@@ -1244,7 +1254,7 @@ pub trait ObservableExt<Item, Err>: Sized {
   ) -> DelayOpThreads<Self, SD> {
     DelayOpThreads {
       source: self,
-      delay: at.elapsed(),
+      delay: duration_until(at),
       scheduler,
     }
   }
@@ -1269,7 +1279,7 @@ pub trait ObservableExt<Item, Err>: Sized {
   ) -> DelaySubscriptionOp<Self, SD> {
     DelaySubscriptionOp {
       source: self,
-      delay: at.elapsed(),
+      delay: duration_until(at),
       scheduler,
     }
   }
